@@ -176,6 +176,13 @@ def generic_t1(chk, wc, mod, tier, seed):
                 if any(r[2] == "ok" and r[3] for r in again):
                     chk.cov["flaky_reruns"] = chk.cov.get("flaky_reruns", 0) + 1
                     continue
+            # a failure that matches an open known finding is recorded as such and does not use up one of the (few) failures
+            # that are shrunk and reported — a real violation further down the case list must not be crowded out
+            if hasattr(mod, "finding_key"):
+                k0 = mod.finding_key(c, obs, model, oracle)
+                if k0 and chk.is_known(k0):
+                    chk.cov["known_finding_cases"] = chk.cov.get("known_finding_cases", 0) + 1
+                    continue
             nfail += 1
             if nfail > 3:
                 continue
